@@ -382,6 +382,10 @@ def ends_rule(repo, res, rule="ENDS"):
 
 
 def run(repo, res, tier):
+    from vlib import rules_pairing as RPAIR
+    # the reference trace of `Adjacent literals` and the cycle path list exactly the references on the current path
+    n_pair = RPAIR.pairing_rule(repo, res)
+    res.floor("PAIRING", n_pair, 5)
     ends_rule(repo, res)
     mir = M.get_mir(tier)
     res.engines["M"] = {"functions": len(mir.fns)}
